@@ -3,6 +3,7 @@ package checks
 import (
 	"fmt"
 	"io"
+	"math"
 
 	"github.com/ulikunitz/xz"
 	"github.com/ulikunitz/xz/lzma"
@@ -119,7 +120,9 @@ func wildConfig(r *sim.Rng, c *WCase) {
 	case 4:
 		*dict = sim.Pick(r, []int{1, 100, 4095, -1, -4096})
 	case 5:
-		*buf = sim.Pick(r, []int{1, 100, 272, -1})
+		// too small, negative, or so large that no buffer of that size can exist
+		// (refusing is the only sane answer; nothing of that size is allocated)
+		*buf = sim.Pick(r, []int{1, 100, 272, -1, 1 << 62, math.MaxInt64, math.MaxInt64 - 8<<20})
 	case 6:
 		if c.XZ != nil && !c.XZ.NoCheckSum && r.Bool() {
 			c.XZ.CheckSum = sim.Pick(r, []byte{2, 3, 5, 7, 0x0b, 0x0f, 0x10, 0xff})
